@@ -36,6 +36,11 @@ struct Item {
     /// the RSA layer carries)
     #[serde(default)]
     enc_token_len: Option<usize>,
+    /// instead of hostile bytes: a complete, well-formed login whose Client Information reports this (valid
+    /// UTF-8, within the field's 16 characters or beyond) locale; class says what follows: `...:no-target` (the
+    /// player is refused in that locale) or `...:timeout` (the client never echoes: timeout Disconnect in it)
+    #[serde(default)]
+    locale: Option<String>,
     /// a fault of the transport instead of (reset: after) the hostile bytes: reset | write-zero | write-fail |
     /// write-partial-zero | write-partial-fail (the write faults hit clientbound frame `fault_frame` of the
     /// honest exchange: status exchange for state 1, login with slow routing for state 9)
@@ -129,7 +134,7 @@ fn render_with(id: i32, parts: &[Part], k: usize, replacement: Vec<u8>) -> Vec<u
 fn items_for(state: usize, max: i32, thorough: bool) -> Vec<Item> {
     let mut v = vec![];
     let mut push = |class: &str, bytes: Vec<u8>, eof: bool, malformed: bool, refuse_now: bool| {
-        v.push(Item { state, max, class: class.into(), bytes_hex: hex(&bytes), eof, malformed, refuse_now, enc_secret_len: None, tolerated_first: None, enc_token_len: None, fault: None, fault_frame: 0 })
+        v.push(Item { state, max, class: class.into(), bytes_hex: hex(&bytes), eof, malformed, refuse_now, enc_secret_len: None, tolerated_first: None, enc_token_len: None, locale: None, fault: None, fault_frame: 0 })
     };
     // A. outer length alphabet: the prefix alone, then silence (out of range) or EOF (in range)
     let outer: Vec<(String, Vec<u8>, bool)> = vec![
@@ -243,16 +248,16 @@ fn items_for(state: usize, max: i32, thorough: bool) -> Vec<Item> {
     drop(push);
     if state == 6 {
         for n in [0usize, 1, 8, 15, 17, 24, 32, 100] {
-            v.push(Item { state, max, class: format!("valid-rsa-secret-len-{n}"), bytes_hex: String::new(), eof: true, malformed: true, refuse_now: false, enc_secret_len: Some(n), tolerated_first: None, enc_token_len: None, fault: None, fault_frame: 0 });
+            v.push(Item { state, max, class: format!("valid-rsa-secret-len-{n}"), bytes_hex: String::new(), eof: true, malformed: true, refuse_now: false, enc_secret_len: Some(n), tolerated_first: None, enc_token_len: None, locale: None, fault: None, fault_frame: 0 });
         }
     }
     if state == 6 {
         for n in [0usize, 1, 16, 31, 33, 48, 64, 116, 117] {
-            v.push(Item { state, max, class: format!("valid-rsa-token-len-{n}"), bytes_hex: String::new(), eof: true, malformed: true, refuse_now: false, enc_secret_len: None, tolerated_first: None, enc_token_len: Some(n), fault: None, fault_frame: 0 });
+            v.push(Item { state, max, class: format!("valid-rsa-token-len-{n}"), bytes_hex: String::new(), eof: true, malformed: true, refuse_now: false, enc_secret_len: None, tolerated_first: None, enc_token_len: Some(n), locale: None, fault: None, fault_frame: 0 });
         }
     }
     let mut push = |class: &str, bytes: Vec<u8>, eof: bool, malformed: bool, refuse_now: bool| {
-        v.push(Item { state, max, class: class.into(), bytes_hex: hex(&bytes), eof, malformed, refuse_now, enc_secret_len: None, tolerated_first: None, enc_token_len: None, fault: None, fault_frame: 0 })
+        v.push(Item { state, max, class: class.into(), bytes_hex: hex(&bytes), eof, malformed, refuse_now, enc_secret_len: None, tolerated_first: None, enc_token_len: None, locale: None, fault: None, fault_frame: 0 })
     };
     // G. every [len][id][b] frame and two-byte bodies over a boundary alphabet, then EOF
     let ids: Vec<i32> = (0..=0x20).chain([0x7f]).collect();
@@ -297,6 +302,21 @@ fn build(it: &Item) -> Case {
     if it.eof {
         case.script.push(st(When::With, Act::Eof));
     }
+    if let Some(loc) = &it.locale {
+        case.script = prefix(9);
+        for stp in case.script.iter_mut() {
+            if let Act::ClientInfo { locale } = &mut stp.act {
+                *locale = loc.clone();
+            }
+        }
+        case.adapters.disc_ms = 0;
+        if it.class.ends_with(":timeout") {
+            case.adapters.disc_ms = 40_000;
+            case.echo = Echo::Never;
+        } else {
+            case.adapters.strat = StratPlan::None;
+        }
+    }
     match it.fault.as_deref() {
         Some("reset") => case.script.push(st(When::With, Act::Reset)),
         Some(f) if f.starts_with("write-") => {
@@ -320,10 +340,10 @@ fn build(it: &Item) -> Case {
         }
         _ => {}
     }
-    if it.state >= 9 {
+    if it.state >= 9 && (it.locale.is_none() || it.class.ends_with(":timeout")) {
         case.adapters.disc_ms = 40_000;
     }
-    case.echo = if it.state == 10 { Echo::Never } else { Echo::Prompt };
+    case.echo = if it.state == 10 || (it.locale.is_some() && it.class.ends_with(":timeout")) { Echo::Never } else { Echo::Prompt };
     case.horizon_ms = 100_000;
     case
 }
@@ -338,6 +358,13 @@ fn judge(it: &Item, baseline_packets: usize, obs: &Obs) -> Vec<(String, String)>
             bad("keeps-running-after-eof".into(), format!("state {st}: the handler never noticed the end of stream and kept reading ({p})"));
         } else {
             bad(format!("panic:{}", it.class.trim_end_matches("+eof")), format!("state {st}: handler panicked: {p}"));
+        }
+        return v;
+    }
+    if it.locale.is_some() {
+        // a well-formed login: it must end in the Disconnect it asks for, not in a panic (checked above)
+        if !obs.has("ConfDisconnect") {
+            bad(format!("no-disconnect:{}", it.class), format!("locale {:?}: the connection ended with {:?} and packets {:?}", it.locale, obs.result, obs.kinds()));
         }
         return v;
     }
@@ -463,6 +490,19 @@ pub fn run(cli: Cli) -> ! {
             items.extend(its);
         }
     }
+    // well-formed logins whose locale is valid UTF-8 with multi-byte characters straddling every byte offset up
+    // to 40 (a label, a key, a limit computed in bytes must not cut a character in two)
+    for pad in 0..=24usize {
+        for (ch, n) in [("\u{e9}", 14usize), ("\u{20ac}", 10), ("\u{1f600}", 6), ("\u{441}", 9)] {
+            let loc = format!("{}{}", "a".repeat(pad), ch.repeat(n));
+            for what in ["no-target", "timeout"] {
+                if what == "timeout" && pad % 3 != 0 {
+                    continue;
+                }
+                items.push(Item { state: 9, max: 10_000, class: format!("unicode-locale:{what}"), bytes_hex: String::new(), eof: false, malformed: false, refuse_now: false, enc_secret_len: None, tolerated_first: None, enc_token_len: None, locale: Some(loc.clone()), fault: None, fault_frame: 0 });
+            }
+        }
+    }
     // transport faults: the connection is reset in every state (at a frame boundary and in the middle of every
     // frame legal there); every clientbound frame of a status exchange and of a login with slow routing (cookie
     // request ... Keep Alive, Store Cookie, Transfer) is refused by the transport, at once or after two bytes
@@ -475,20 +515,20 @@ pub fn run(cli: Cli) -> ! {
             pieces.push(honest[..honest.len() - 1].to_vec());
         }
         for bytes in pieces {
-            items.push(Item { state, max: 10_000, class: "transport:reset".into(), bytes_hex: hex(&bytes), eof: false, malformed: false, refuse_now: false, enc_secret_len: None, tolerated_first: None, enc_token_len: None, fault: Some("reset".into()), fault_frame: 0 });
+            items.push(Item { state, max: 10_000, class: "transport:reset".into(), bytes_hex: hex(&bytes), eof: false, malformed: false, refuse_now: false, enc_secret_len: None, tolerated_first: None, enc_token_len: None, locale: None, fault: Some("reset".into()), fault_frame: 0 });
         }
     }
     for (state, frames) in [(1usize, 2usize), (9, 9)] {
         for f in 0..frames {
             for fault in ["write-zero", "write-fail", "write-partial-zero", "write-partial-fail"] {
-                items.push(Item { state, max: 10_000, class: format!("transport:{fault}"), bytes_hex: String::new(), eof: false, malformed: false, refuse_now: false, enc_secret_len: None, tolerated_first: None, enc_token_len: None, fault: Some(fault.into()), fault_frame: f });
+                items.push(Item { state, max: 10_000, class: format!("transport:{fault}"), bytes_hex: String::new(), eof: false, malformed: false, refuse_now: false, enc_secret_len: None, tolerated_first: None, enc_token_len: None, locale: None, fault: Some(fault.into()), fault_frame: f });
             }
         }
     }
     // number of clientbound packets the honest prefix alone produces, per state
     let baseline: Vec<usize> = (0..N_STATES)
         .map(|s| {
-            let mut c = build(&Item { state: s, max: 10_000, class: String::new(), bytes_hex: String::new(), eof: false, malformed: false, refuse_now: false, enc_secret_len: None, tolerated_first: None, enc_token_len: None, fault: None, fault_frame: 0 });
+            let mut c = build(&Item { state: s, max: 10_000, class: String::new(), bytes_hex: String::new(), eof: false, malformed: false, refuse_now: false, enc_secret_len: None, tolerated_first: None, enc_token_len: None, locale: None, fault: None, fault_frame: 0 });
             c.script.truncate(prefix(s).len());
             c.horizon_ms = if s == 10 { 16_500 } else { 1 };
             crate::sim::run(&c).packets.len()
@@ -517,7 +557,7 @@ pub fn run(cli: Cli) -> ! {
     rep.set("distinct_nontrivial", json!(d));
     rep.set("states", json!(N_STATES));
     rep.set("exhaustive", json!(true));
-    rep.set("rule", json!("one hostile frame per run in each of 11 protocol states (the last: configuration phase, routing slow, the Keep Alive of the 16 s tick unanswered, hostile bytes at 17 s) x configured maximum {1,64,10000,2097151; before the handshake also 0, -1, i32::MIN, which admit no length}: 10 outer length prefixes (alone, and followed by EOF), 8 inner length prefixes per length-prefixed field of every packet legal in the state, truncation of the honest frame at every byte offset + EOF, invalid UTF-8 per string, 4 out-of-range ordinals per enum, RSA ciphertext shapes, valid RSA layers around secrets of 0-100 bytes and verify tokens of 0-117 bytes, 9 well-formed Keep Alive frames with extreme ids in the configuration states, every [len][id][b] frame for id 0..0x20,0x7f and b 0..255 and 256 two-byte bodies; transport faults: the connection reset at a frame boundary and inside every legal frame of every state, and every clientbound frame of a status exchange and of a login with slow routing refused by the transport (Ok(0) or BrokenPipe, at once or after two bytes). distinct_nontrivial = distinct (state, class, result)."));
+    rep.set("rule", json!("one hostile frame per run in each of 11 protocol states (the last: configuration phase, routing slow, the Keep Alive of the 16 s tick unanswered, hostile bytes at 17 s) x configured maximum {1,64,10000,2097151; before the handshake also 0, -1, i32::MIN, which admit no length}: 10 outer length prefixes (alone, and followed by EOF), 8 inner length prefixes per length-prefixed field of every packet legal in the state, truncation of the honest frame at every byte offset + EOF, invalid UTF-8 per string, 4 out-of-range ordinals per enum, RSA ciphertext shapes, valid RSA layers around secrets of 0-100 bytes and verify tokens of 0-117 bytes, 9 well-formed Keep Alive frames with extreme ids in the configuration states, every [len][id][b] frame for id 0..0x20,0x7f and b 0..255 and 256 two-byte bodies; well-formed logins whose locale has multi-byte characters straddling every byte offset up to 40, ending in the no-target and in the timeout Disconnect; transport faults: the connection reset at a frame boundary and inside every legal frame of every state, and every clientbound frame of a status exchange and of a login with slow routing refused by the transport (Ok(0) or BrokenPipe, at once or after two bytes). distinct_nontrivial = distinct (state, class, result)."));
     rep.sample(json!({"item": items[0]}));
     rep.sample(json!({"item": items[items.len() / 2]}));
     rep.sample(json!({"item": items[items.len() - 1]}));
